@@ -275,6 +275,36 @@ def job_beam(cfg):
     kmax = Fraction(int(float(np.abs(np.asarray(farr_shadow(dense(Kx)))).max())) + 1)
     compare(res, f"{key}: K(inclined) = T K(along x) T^T", dense(Ki), facade._matmul(facade._matmul(T, dense(Kx)), T.T), pcs, replay, TOL * kmax, key=f"{key} stiffness")
     compare(res, f"{key}: M(inclined) = T M(along x) T^T", dense(Mi), facade._matmul(facade._matmul(T, dense(Mx)), T.T), pcs, replay, TOL, key=f"{key} mass")
+    # distributed load given by its components in the MEMBER axes (symbolic): nodal forces of the inclined member = rotated nodal forces of
+    # the member along x.  Global components of the load on the inclined member: P q.
+    ql = [c.var(f"ql{i}", -1, 1) for i in range(3 if dim == 3 else 2)]
+    res.symbols += len(ql)
+    unk = ["x", "y", "z"][:len(ql)]
+    if dof_n >= len(ql):
+        mark2 = c.mark()
+        with facade.symbolic():
+            sx.Bc_Init()
+            sx.add_lineLoad(sx.mesh.nodes, list(ql), unk)
+            Fx = np.asarray(sx.Bc_vector_Neumann(), dtype=object).reshape(-1)
+            qg = [sum(Pf[a, b] * ql[b] for b in range(len(ql))) for a in range(len(ql))]
+            si.Bc_Init()
+            si.add_lineLoad(si.mesh.nodes, qg, unk)
+            Fi = np.asarray(si.Bc_vector_Neumann(), dtype=object).reshape(-1)
+        pcs2 = c.pc_since(mark2)
+
+        def replay_load(env):
+            full = {kk: float(v) for kk, v in {**c.shadow, **(env or {})}.items()}
+            qf = [float(as_sym(x).eval(full)) for x in ql]
+            a, _, _ = simlib.beam_simu(dim, et, tuple(p1), tuple(p1 + np.array([L, 0, 0])), 2, tim, E=210.0)
+            b, _, _ = simlib.beam_simu(dim, et, tuple(p1), tuple(p1 + direction), 2, tim, E=210.0)
+            a.add_lineLoad(a.mesh.nodes, qf, unk)
+            b.add_lineLoad(b.mesh.nodes, [float(v) for v in (P[:len(qf), :len(qf)] @ np.array(qf))], unk)
+            Fa, Fb = np.asarray(a.Bc_vector_Neumann()).ravel(), np.asarray(b.Bc_vector_Neumann()).ravel()
+            Tf = np.array(T, dtype=float)
+            e = float(np.abs(Fb - Tf @ Fa).max() / max(1e-30, np.abs(Fa).max()))
+            return e > 1e-8, {"load_in_member_axes": qf, "direction": list(map(float, direction)), "relative_error_F_inclined_vs_rotated_F_along_x": e}
+
+        compare(res, f"{key}: line load, F(inclined) = T F(along x)", Fi, facade._matmul(T, Fx), pcs2, replay_load, TOL * 10, key=f"{key} line load")
     res.stubs |= facade.USED_STUBS
     return res
 
